@@ -23,10 +23,30 @@ Local Open Scope R_scope.
 
 (** equality of triples / of real expressions that are the same up to ring normalisation of the
     arithmetic around the (syntactically equal) sqrt / atanh_R / ln / exp atoms *)
+Ltac asR' := try match goal with |- ?a = ?b => change (@eq R a b) end.
+(** make the arguments of the occurrences of [f] syntactically equal whenever they are equal as
+    polynomials / rational expressions (harmless rewritings of the source such as (r-x)**2 for
+    (x-r)**2 must not break the tie) *)
+Ltac unify_atoms f :=
+  repeat match goal with
+  | |- context [f ?a] =>
+      match goal with
+      | |- context [f ?b] =>
+          lazymatch a with b => fail | _ => idtac end;
+          replace (f a) with (f b) by (apply f_equal; first [ring | (unfold Rdiv; ring) | (field; fail)])
+      end
+  end.
+Ltac req :=
+  asR'; first [ reflexivity | ring | (unfold Rdiv; ring) | (field; fail)
+              | (unfold Rdiv;
+                 repeat (progress (unify_atoms sqrt; unify_atoms Rinv; unify_atoms atanh_R;
+                                   unify_atoms ln; unify_atoms exp; unify_atoms tanh;
+                                   unify_atoms Rabs));
+                 first [reflexivity | ring]) ].
 Ltac triple :=
   cbv zeta;
   first [ reflexivity
-        | repeat (apply f_equal2); first [reflexivity | ring | (unfold Rdiv; ring) | field] ].
+        | apply (f_equal2 (@pair (R * R) R)); [apply (f_equal2 (@pair R R)) | ]; req ].
 
 Lemma atanh_R_0 : atanh_R 0 = 0.
 Proof.
@@ -149,7 +169,7 @@ Lemma g3_total_shape s x :
   g3_totalMapping e s x = map3 (tI s) (tO s) (LL s) (rr s) (ss s) (g3_aIn s) (g3_aOut s) x.
 Proof.
   unfold g3_totalMapping, g3_term1, g3_term2, g3_term3, g3_term4, g3_term5, map3, t1, t2, t3, t4, t5.
-  cbv zeta. first [reflexivity | field].
+  cbv zeta. req.
 Qed.
 
 Lemma g3_dec_shape s z pz pp :
@@ -204,8 +224,9 @@ Lemma g3_jacobian_lemma s chi : g3_aIn s <> 0 -> g3_aOut s <> 0 -> rr s <> 0 -> 
 Proof.
   intros HaI HaO Hr Hc. apply is_derive_Reals. unfold comp1. rewrite g3_jac_shape. cbn [fst snd].
   apply (is_derive_ext (fun x => map3 (tI s) (tO s) (LL s) (rr s) (ss s) (g3_aIn s) (g3_aOut s) x
-                                 - g3_totalMapping e s 0 + g3_wallCenter s)).
-  - intro t. rewrite g3_dec_shape. cbn [fst snd]. rewrite g3_total_shape. reflexivity.
+                                 - map3 (tI s) (tO s) (LL s) (rr s) (ss s) (g3_aIn s) (g3_aOut s) 0
+                                 + g3_wallCenter s)).
+  - intro t. rewrite g3_dec_shape. cbn [fst snd]. rewrite !g3_total_shape. reflexivity.
   - pose proof (map3_derive (tI s) (tO s) (LL s) (rr s) (ss s) (g3_aIn s) (g3_aOut s) HaI HaO Hr chi Hc) as H.
     auto_derive.
     + eexists; exact H.
@@ -227,15 +248,15 @@ Lemma g3_term_derivs_lemma s x : g3_aIn s <> 0 -> g3_aOut s <> 0 -> rr s <> 0 ->
 Proof.
   intros HaI HaO Hr [Hx1 Hx2].
   repeat split; apply is_derive_Reals.
-  - apply (is_derive_ext (t1 (tO s) (LL s) (rr s) (g3_aOut s))); [intro; unfold g3_term1, t1; cbv zeta; first [reflexivity|asR; field] |].
+  - apply (is_derive_ext (t1 (tO s) (LL s) (rr s) (g3_aOut s))); [intro; unfold g3_term1, t1; cbv zeta; req |].
     apply t1_derive; assumption.
-  - apply (is_derive_ext (t2 (tO s) (LL s) (rr s) (g3_aOut s))); [intro; unfold g3_term2, t2; cbv zeta; first [reflexivity|asR; field] |].
+  - apply (is_derive_ext (t2 (tO s) (LL s) (rr s) (g3_aOut s))); [intro; unfold g3_term2, t2; cbv zeta; req |].
     apply t2_derive; assumption.
-  - apply (is_derive_ext (t3 (tI s) (LL s) (rr s) (g3_aIn s))); [intro; unfold g3_term3, t3; cbv zeta; first [reflexivity|asR; field] |].
+  - apply (is_derive_ext (t3 (tI s) (LL s) (rr s) (g3_aIn s))); [intro; unfold g3_term3, t3; cbv zeta; req |].
     apply t3_derive; assumption.
-  - apply (is_derive_ext (t4 (tI s) (LL s) (rr s) (g3_aIn s))); [intro; unfold g3_term4, t4; cbv zeta; first [reflexivity|asR; field] |].
+  - apply (is_derive_ext (t4 (tI s) (LL s) (rr s) (g3_aIn s))); [intro; unfold g3_term4, t4; cbv zeta; req |].
     apply t4_derive; assumption.
-  - apply (is_derive_ext (t5 (tI s) (tO s) (LL s) (rr s) (ss s))); [intro; unfold g3_term5, t5; cbv zeta; first [reflexivity|asR; field] |].
+  - apply (is_derive_ext (t5 (tI s) (tO s) (LL s) (rr s) (ss s))); [intro; unfold g3_term5, t5; cbv zeta; req |].
     apply t5_derive; [assumption | split; assumption].
 Qed.
 
